@@ -125,6 +125,12 @@ def parseReq (op : String) : Option (Request String A) :=
   | ["vvs", ks] => (parseKeys ks).map .valuesSync
   | ["mm", ks] => (parseKeys ks).map .messages
   | ["mms", ks] => (parseKeys ks).map .messagesSync
+  -- `x…`: the same request was first started, polled once and dropped.  The model's state is the cached prefix and the
+  -- error list; an abandoned request that was polled once leaves both as a completed or a not yet started request would,
+  -- so the request that follows answers as the plain one
+  | ["xv", k] => (parseKey k).map .value
+  | ["xvv", ks] => (parseKeys ks).map .values
+  | ["xmm", ks] => (parseKeys ks).map .messages
   | _ => none
 
 def showResp : Response String String String String String String → String
